@@ -67,7 +67,13 @@ class Env:
             if dt is None:
                 from vf.npmodel.array import infer_dtype
                 dt = infer_dtype(flat)
-            a = ndarray._from_cells(flat, shape, dt)
+            from vf.npmodel.cells import conc
+            sym = False
+            for c in flat:
+                if not conc(c):
+                    sym = True
+                    break
+            a = ndarray._from_cells(flat, shape, dt, sym=sym)
         else:
             import numpy as np
             a = np.array(cells, dtype=dtype)
